@@ -984,7 +984,32 @@ func seqHelpers[T comparable](e elem[T]) map[string]runFn {
 		c := newKase(t, "IsEqual", typ)
 		w1 := win(c, t, e, "list1", 8)
 		var w2 *window[T]
-		mode := rapid.IntRange(0, 3).Draw(t, "mode")
+		mode := rapid.IntRange(0, 4).Draw(t, "mode")
+		if mode == 4 {
+			// both arguments are views of ONE backing array (a list and a prefix / suffix / the list itself)
+			s1 := w1.s()
+			lo, hi := 0, len(s1)
+			if len(s1) > 0 {
+				switch rapid.IntRange(0, 2).Draw(t, "view") {
+				case 0:
+					hi = rapid.IntRange(0, len(s1)).Draw(t, "hi")
+				case 1:
+					lo = rapid.IntRange(0, len(s1)).Draw(t, "lo")
+				}
+			}
+			s2 := s1[lo:hi]
+			a, b := s1, s2
+			if rapid.Bool().Draw(t, "swap") {
+				a, b = b, a
+			}
+			var got bool
+			c.call(func() { got = fpgo.IsEqual(a, b) })
+			if len(a) > 0 || len(b) > 0 {
+				expectBool(c, got, eqSeq(a, b))
+			}
+			c.done()
+			return
+		}
 		if mode == 0 {
 			w2 = win(c, t, e, "list2", 8)
 		} else {
